@@ -13,6 +13,7 @@ import (
 const (
 	diffChannels string = "different number of channels"
 	diffCapacity string = "different buffer capacity"
+	sliceBounds  string = "slice bounds out of range"
 )
 
 type (
